@@ -90,6 +90,8 @@ fn row_line(cls: &str, day: i64, v: &Vals) -> String {
         "sell-af" => line("FOO", &td, &sd, "Sell", &n(&v.s), &n(&v.lo), &n(&v.c), "CAD", "", "", "", "B"),
         "sell-sfl" => line("FOO", &td, &sd, "Sell", &n(&half), &n(&v.lo), "0", "CAD", "", &format!("-{}", n(&v.lo)), "", ""),
         "sell-sfl-forced" => line("FOO", &td, &sd, "Sell", &n(&half), &n(&v.lo), "0", "CAD", "", &format!("-{}!", n(&v.lo)), "", ""),
+        "sell-sfl-zero" => line("FOO", &td, &sd, "Sell", &n(&half), &n(&v.lo), "0", "CAD", "", "0", "", ""),
+        "sell-sfl-zero-forced" => line("FOO", &td, &sd, "Sell", &n(&half), &n(&v.lo), "0", "CAD", "", "0!", "", ""),
         "roc" => line("FOO", &td, &sd, "RoC", "", &n(&v.lo), "", "CAD", "", "", "", ""),
         "sfla" => line("FOO", &td, &sd, "SfLA", "1", &n(&v.lo), "", "", "", "", "", ""),
         "split" => line("FOO", &td, &sd, "Split", "", "", "", "", "", "", "2-for-1", ""),
@@ -353,8 +355,8 @@ pub fn fe_record(case: &Value, n: u64, scratch: &Path) -> Value {
     rec
 }
 
-const VALID_ROWS: [&str; 21] = ["buy", "buy-hi", "buy-usd", "buy-af", "buy-reg", "buy-bar", "sell-gain", "sell-loss", "sell-loss-third", "sell-usd", "sell-all", "sell-af",
-    "sell-sfl", "sell-sfl-forced", "roc", "sfla", "split", "split-rev", "oversell", "roc-none", "split-third"];
+const VALID_ROWS: [&str; 23] = ["buy", "buy-hi", "buy-usd", "buy-af", "buy-reg", "buy-bar", "sell-gain", "sell-loss", "sell-loss-third", "sell-usd", "sell-all", "sell-af",
+    "sell-sfl", "sell-sfl-forced", "roc", "sfla", "split", "split-rev", "oversell", "roc-none", "split-third", "sell-sfl-zero", "sell-sfl-zero-forced"];
 const VAL_CLASSES: [&str; 7] = ["plain", "max", "maxdeep", "tiny", "deep", "mixed", "thirds"];
 
 /// seeded random inputs: (a) longer products of valid row classes over every value class and option
